@@ -50,8 +50,8 @@ finding("C07-offset-without-limit", "C07", ["C01", "C03", "C06"],
  "`from t1 | select {id} | sort id | take 2..` compiles for sqlite to `... ORDER BY id OFFSET 1`, which SQLite rejects (near \"OFFSET\": syntax error); SQLite needs `LIMIT -1 OFFSET 1`.",
  {"source": "from t1 | select {id} | sort id | take 2..", "arity": 1, "rows": [[I(2)],[I(3)]], "ordered": True})
 finding("C05-wildcard-helper-leak", "C05", ["C01", "C06", "C09"],
- "helper column (computed sort key, ROW_NUMBER of take-in-group, windowed filter operand, sort key dropped by a later select) in a query whose projection is a wildcard, on a dialect without EXCLUDE (hazard wild_helpers)",
- "`from t1 | sort {(a * -1), id}` compiles to `SELECT *, a * -1 AS _expr_0 FROM t1 ORDER BY _expr_0, id`: the result has the extra column _expr_0 (the code logs a warning and proceeds).",
+ "helper column (computed sort key, ROW_NUMBER of take-in-group, windowed filter operand, sort key dropped by a later select) or a user exclusion `select !{..}` in a query whose projection is a wildcard, on a dialect without EXCLUDE / EXCEPT, i.e. any dialect but duckdb, snowflake, bigquery (hazards wild_helpers, wild_except)",
+ "`from t1 | sort {(a * -1), id}` compiles to `SELECT *, a * -1 AS _expr_0 FROM t1 ORDER BY _expr_0, id`: the result has the extra column _expr_0 (translate_exclude logs a warning and proceeds; its TODO says it should be an error). Same root for user exclusions: `from t1 | select !{a}` is `SELECT * FROM t1` under generic / sqlite / postgres ..., the excluded column is still in the result. Under duckdb / snowflake / bigquery both are emitted with EXCLUDE / EXCEPT and the check decides them strictly.",
  {"source": "from t1 | sort {(a * -1), id}", "arity": 3, "rows": [[I(3),I(2),N],[I(1),I(1),I(10)],[I(2),I(1),I(20)]], "ordered": True})
 finding("C01-append-pruning", "C01", ["C07"],
  "append whose top input is a let-table, is sorted, is a group/aggregate/join result, or that is followed by a projection (hazard append_free)",
@@ -110,7 +110,7 @@ finding("C03-dropped-sort-key-join", "C03", ["C01", "C07"],
  {"source": "from t1 | select {id, a, b} | sort {a, id} | select {c0 = id + 1} | join r0 = (from t2 | filter id == 1 | select {c2 = id + 1}) (true) | take 1..2", "arity": 2,
   "rows": [[I(2),I(2)],[I(3),I(2)]], "ordered": True})
 
-finding("C07-wildcard-let-derive-name", "C07", ["C01", "C09"],
+finding("C07-wildcard-let-derive-name", "C07", ["C01", "C09", "C06"],
  "a let-table / CTE whose frame is a wildcard (`from t` not projected) containing a derive followed by a filter, referenced from outside by the derived name (hazard wild_let)",
  "`let l0 = (from t1 | derive {c0 = id + 1} | filter b > 0)  from l0 | group {a} (aggregate {s = sum c0})` emits `WITH table_0 AS (SELECT *, id + 1 AS _expr_0 FROM t1), l0 AS (SELECT * FROM table_0 WHERE b > 0) SELECT a, COALESCE(SUM(c0), 0) ... FROM l0`: the derived column is named _expr_0 inside the CTE but referred to as c0 outside (no such column).",
  {"source": "let l0 = (from t1 | derive {c0 = id + 1} | filter b > 0)\nfrom l0 | group {a} (aggregate {s = sum c0})", "arity": 2, "rows": [[I(1),I(5)]]})
@@ -205,6 +205,9 @@ panic_finding("bad-special-function-cast", "prqlc/src/semantic/resolver/transfor
 panic_finding("operators-unwrap", "prqlc/src/sql/operators.rs", "called `Option::unwrap()` on a `None` value",
  "prqlc/tests/integration/queries/date_to_text.prql compiled for redshift", "compile / rq_to_sql",
  "find_operator_impl(..).unwrap(): std operator without an implementation for the dialect (the repository's own date_to_text query under a dialect its test header skips).")
+panic_finding("module-unwrap", "prqlc/src/semantic/module.rs", "called `Option::unwrap()` on a `None` value",
+ "from t1 | select {id, u} | append (from id | select {c2 = id, u}) | group {id} (take 1)", "compile / pl_to_rq",
+ "lineage.find_input_by_name(..).unwrap() in Module::insert_frame: after an append whose bottom relation is named like a column, a column's lineage names an input that the frame does not list.")
 panic_finding("context-no-entry", "prqlc/src/sql/pq/context.rs", "no entry found for key",
  "from t1 | select {t1.id, k} | select !{t1.id} | derive {c1 = \"b\", c2 = f\"{c1} \" <= \"A\"} | window (derive {c2 = case [c2 && c2 => ...]})", "compile / rq_to_sql")
 panic_finding("context-assert-eq", "prqlc/src/sql/pq/context.rs", "assertion `left == right` failed",
@@ -259,10 +262,6 @@ finding("C11-order-by-alias-choice-hash-dependent", "C11", [],
  "two outputs for the same call that are equal once the key lists of their ORDER BY clauses are blanked",
  "When the column a sort refers to is visible under several names (`select {c0 = id, id, c1 = id} | sort {id, (c0 * 2)}`), the name used in the emitted ORDER BY (`ORDER BY c0, _expr_0` vs `ORDER BY c1, _expr_0`) is whichever alias a hash-map iteration in the sort post-processing meets first: the SQL text differs between runs (the rows do not).",
  None)
-finding("C11-error-text-hash-dependent", "C11", [],
- "two error outputs for the same call that consist of the same tokens in a different order",
- "the `available columns` hint of `Unknown name` lists inferred columns in hash order",
- None)
 
 finding("C07-join-rewritten-to-intersect", "C07", ["C01", "C05", "C09"],
  "the program has no `intersect`, the emitted SQL contains INTERSECT ALL and the binder reports a set operation between different arities",
@@ -303,13 +302,29 @@ finding("C06-let-sort-not-applied-to-windows", "C06", ["C03"],
  "a pipeline prefix that ends with a sort in effect is named with let / into and the continuation uses a window function (rank, row_number, lag, running sum ...)",
  "`from t2 | select {id, f, x} | sort {-x, -id} | derive {c1 = (rank id)}` ranks in the sort order (`RANK() OVER (ORDER BY x DESC, id DESC)`); after `... | sort {-x, -id} | into z` + `from z | derive {c1 = (rank id)}` the window has no ORDER BY (`RANK() OVER ()`, every row gets rank 1) although the final ORDER BY is still propagated: the sort of a let-table is carried to the end of the query but not to window functions.",
  None)
+finding("C07-loop-after-sort-arity", "C07", [],
+ "a `loop` whose input pipeline has a sort in effect: the emitted WITH RECURSIVE has a UNION ALL between different arities",
+ "`from t1 | select {id} | sort {id} | take 3 | select {zn = 1} | loop (filter zn < 4 | select {zn = zn + 1})`: the sort column is appended to the anchor of the recursive CTE only (`SELECT 1 AS zn, id FROM .. UNION ALL SELECT zn + 1 FROM table_0 ..`).",
+ None)
+finding("C05-consecutive-exclusions-forget-first", "C05", [],
+ "a second `select !{..}` over a frame that still contains the wildcard of a relation whose columns are unknown, any dialect (hazard wild_except_twice)",
+ "`from t1 | select !{id} | select !{a}` compiles under duckdb to `SELECT * EXCLUDE (a) FROM t1`: `id` is back. The second exclusion is resolved against all columns of the input relation (lowering find_selected_all / Lineage::apply_assign take `within` = the whole input), so the earlier exclusion is forgotten; also with steps in between (`select !{id} | take 3 | select !{a}`, `select !{id} | sort {a} | select !{a}`).",
+ None)
+finding("C05-excluded-sort-key-returns", "C05", [],
+ "`select !{..}` over a wildcard frame while a sort is in effect, followed by further steps (hazard wild_except_sorted)",
+ "`from t1 | sort {id} | take 2 | select !{id} | derive {c = a + 1}` compiles under duckdb to `WITH table_1 AS (SELECT * FROM t1 ORDER BY id LIMIT 2), table_0 AS (SELECT * FROM table_1) SELECT *, a + 1 AS c FROM table_0 ORDER BY id`: no EXCLUDE at all, `id` is in the result. The sort key has to stay available to the final ORDER BY, and the exclusion is dropped instead of being applied in the last SELECT.",
+ None)
+finding("C07-wildcard-join-duplicate-names", "C07", ["C01", "C05"],
+ "a join of two relations of unknown columns (`from t | join u (..)`, both emitted as `t.*, u.*`) that share a column name, followed by steps that move the join into a CTE and refer to a shared name (hazard wild_dup_join)",
+ "`from t1 | join t2 (==id) | derive {c2 = 1} | filter t2.a == 5` compiles to `WITH table_0 AS (SELECT t1.*, t2.*, 1 AS c2 FROM t1 INNER JOIN t2 ON t1.id = t2.id) SELECT * FROM table_0 WHERE a = 5`: inside table_0 there are two columns `a`; the filter meant t2.a (SQLite silently takes the first, other engines reject the ambiguous name). With a self-join (`from t3 | join r0 = t3 (==s) | derive {..} | filter r0.a == 0`) the reference becomes `_expr_1`, which table_0 never defines (no such column).",
+ None)
 finding("C08-nul-character", "C08", [],
  "a string literal containing U+0000",
  "A NUL character is emitted verbatim inside the SQL text; SQLite's C API truncates the statement / the value at it.",
  None)
 
 k = json.load(open(os.path.join(V, "known_findings.json")))
-REMOVED = {"C11-column-order-hash-dependent"}  # repaired by a fix: commit (see "fixed")
+REMOVED = {"C11-column-order-hash-dependent", "C11-error-text-hash-dependent"}  # repaired by a fix: commit (see "fixed")
 keep = [f for f in k["findings"] if f["id"] not in {x["id"] for x in FINDINGS} and f["id"] not in REMOVED]
 k["findings"] = keep + FINDINGS
 json.dump(k, open(os.path.join(V, "known_findings.json"), "w"), indent=1, ensure_ascii=False)
